@@ -48,32 +48,71 @@ func must[T any](v T, err error) T {
 	return v
 }
 
-func newFixture(seed int64) *fixture {
-	f := &fixture{}
-	mk := func(b byte) []byte {
-		s := make([]byte, 48)
-		for i := range s {
-			s[i] = byte(int64(i)*7 + int64(b) + seed)
-		}
-		return s
+// recipe holds the byte material from which fresh shared objects are rebuilt for every execution,
+// so that FIRST use of an object (lazy initialisation, caches) is part of every explored schedule.
+type recipe struct {
+	seed                       int64
+	pk1b, pk2b, epkb, eskb     []byte
+	m1, m2                     []byte
+	s1, s2, s2m2, pop1         []byte
+	agg1, agg2, sigP, sigS     []byte
+	seedB1, seedB2, seedP, seedS []byte
+}
+
+func mkSeed(b byte, seed int64) []byte {
+	s := make([]byte, 48)
+	for i := range s {
+		s[i] = byte(int64(i)*7 + int64(b) + seed)
 	}
+	return s
+}
+
+func newRecipe(seed int64) *recipe {
+	r := &recipe{seed: seed, seedB1: mkSeed(1, seed), seedB2: mkSeed(2, seed), seedP: mkSeed(3, seed), seedS: mkSeed(4, seed)}
+	H := crypto.NewExpandMsgXOFKMAC128("c19")
+	sk1 := must(crypto.GeneratePrivateKey(crypto.BLSBLS12381, r.seedB1))
+	sk2 := must(crypto.GeneratePrivateKey(crypto.BLSBLS12381, r.seedB2))
+	ep := must(crypto.GeneratePrivateKey(crypto.ECDSAP256, r.seedP))
+	es := must(crypto.GeneratePrivateKey(crypto.ECDSASecp256k1, r.seedS))
+	r.pk1b, r.pk2b = sk1.PublicKey().Encode(), sk2.PublicKey().Encode()
+	r.epkb, r.eskb = ep.PublicKey().Encode(), es.PublicKey().Encode()
+	r.m1, r.m2 = []byte("c19 message one"), []byte("c19 message two, a little longer than the first")
+	r.s1 = must(sk1.Sign(r.m1, H))
+	r.s2 = must(sk2.Sign(r.m1, H))
+	r.s2m2 = must(sk2.Sign(r.m2, H))
+	r.pop1 = must(crypto.BLSGeneratePOP(sk1))
+	r.agg1 = must(crypto.AggregateBLSSignatures([]crypto.Signature{r.s1, r.s2}))
+	r.agg2 = must(crypto.AggregateBLSSignatures([]crypto.Signature{r.s1, r.s2m2}))
+	r.sigP = must(ep.Sign(r.m1, hash.NewSHA3_256()))
+	r.sigS = must(es.Sign(r.m1, hash.NewSHA2_256()))
+	return r
+}
+
+func cp(b []byte) []byte { return append([]byte(nil), b...) }
+
+// fresh builds brand-new shared objects: a new KMAC hasher, public keys decoded from bytes (never
+// used before), private keys with their public key already computed (lazy public-key caching of
+// PRIVATE keys is deliberately not part of the scenario), fresh copies of all buffers.
+func (r *recipe) fresh() *fixture {
+	f := &fixture{}
 	f.H = crypto.NewExpandMsgXOFKMAC128("c19")
 	f.pop = crypto.VerifPopKMAC()
-	f.sk1 = must(crypto.GeneratePrivateKey(crypto.BLSBLS12381, mk(1)))
-	f.sk2 = must(crypto.GeneratePrivateKey(crypto.BLSBLS12381, mk(2)))
-	f.pk1, f.pk2 = f.sk1.PublicKey(), f.sk2.PublicKey()
-	f.m1, f.m2 = []byte("c19 message one"), []byte("c19 message two, a little longer than the first")
-	f.s1 = must(f.sk1.Sign(f.m1, f.H))
-	f.s2 = must(f.sk2.Sign(f.m1, f.H))
-	f.s2m2 = must(f.sk2.Sign(f.m2, f.H))
-	f.pop1 = must(crypto.BLSGeneratePOP(f.sk1))
-	f.agg1 = must(crypto.AggregateBLSSignatures([]crypto.Signature{f.s1, f.s2}))
-	f.agg2 = must(crypto.AggregateBLSSignatures([]crypto.Signature{f.s1, f.s2m2}))
-	f.ep = must(crypto.GeneratePrivateKey(crypto.ECDSAP256, mk(3)))
-	f.es = must(crypto.GeneratePrivateKey(crypto.ECDSASecp256k1, mk(4)))
-	f.epk, f.esk = f.ep.PublicKey(), f.es.PublicKey()
-	f.sigP = must(f.ep.Sign(f.m1, hash.NewSHA3_256()))
-	f.sigS = must(f.es.Sign(f.m1, hash.NewSHA2_256()))
+	f.sk1 = must(crypto.GeneratePrivateKey(crypto.BLSBLS12381, r.seedB1))
+	f.sk2 = must(crypto.GeneratePrivateKey(crypto.BLSBLS12381, r.seedB2))
+	f.sk1.PublicKey()
+	f.sk2.PublicKey()
+	f.pk1 = must(crypto.DecodePublicKey(crypto.BLSBLS12381, r.pk1b))
+	f.pk2 = must(crypto.DecodePublicKey(crypto.BLSBLS12381, r.pk2b))
+	f.m1, f.m2 = cp(r.m1), cp(r.m2)
+	f.s1, f.s2, f.s2m2, f.pop1 = cp(r.s1), cp(r.s2), cp(r.s2m2), cp(r.pop1)
+	f.agg1, f.agg2 = cp(r.agg1), cp(r.agg2)
+	f.ep = must(crypto.GeneratePrivateKey(crypto.ECDSAP256, r.seedP))
+	f.es = must(crypto.GeneratePrivateKey(crypto.ECDSASecp256k1, r.seedS))
+	f.ep.PublicKey()
+	f.es.PublicKey()
+	f.epk = must(crypto.DecodePublicKey(crypto.ECDSAP256, r.epkb))
+	f.esk = must(crypto.DecodePublicKey(crypto.ECDSASecp256k1, r.eskb))
+	f.sigP, f.sigS = cp(r.sigP), cp(r.sigS)
 	add := func(n string, v any) { f.names = append(f.names, n); f.shared = append(f.shared, v) }
 	add("kmac-hasher", f.H)
 	add("pop-hasher", f.pop)
@@ -92,6 +131,8 @@ func newFixture(seed int64) *fixture {
 	}
 	return f
 }
+
+func newFixture(seed int64) *fixture { return newRecipe(seed).fresh() }
 
 // snapshot: raw-memory deep snapshot of all shared objects (see space.Snap)
 func (f *fixture) snapshot() *space.Snap { return space.NewSnap(f.shared...) }
@@ -140,6 +181,17 @@ var ops = []opDef{
 	{"ECDSA-secp256k1.Verify(sig,m1,own SHA2)", func(f *fixture) string { return vb(f.esk.Verify(f.sigS, f.m1, hash.NewSHA2_256())) }},
 	{"BLSGeneratePOP(sk1)", func(f *fixture) string { s, err := crypto.BLSGeneratePOP(f.sk1); return fmt.Sprintf("%x,%v", []byte(s), err) }},
 	{"BLS.Verify(pk2,s2m2,m2,H)", func(f *fixture) string { return vb(f.pk2.Verify(f.s2m2, f.m2, f.H)) }},
+	{"AggregateBLSSignatures([s1,s2])", func(f *fixture) string {
+		s, err := crypto.AggregateBLSSignatures([]crypto.Signature{f.s1, f.s2})
+		return fmt.Sprintf("%x,%v", []byte(s), err)
+	}},
+	{"AggregateBLSPublicKeys([pk1,pk2]).Encode", func(f *fixture) string {
+		k, err := crypto.AggregateBLSPublicKeys([]crypto.PublicKey{f.pk1, f.pk2})
+		if err != nil {
+			return "err:" + err.Error()
+		}
+		return fmt.Sprintf("%x", k.Encode())
+	}},
 }
 
 type program struct {
@@ -210,13 +262,17 @@ func boundFor(p program, thorough bool) (int, int) {
 	return 2, 20000
 }
 
-func runProgram(f *fixture, solo []string, init *space.Snap, p program, thorough bool) progResult {
+func runProgram(rc *recipe, solo []string, p program, thorough bool) progResult {
+	var f *fixture
+	var init *space.Snap
 	res := progResult{Prog: p.ID, Desc: p.String()}
 	outs := make([]string, len(p.Threads))
 	var stepViol *violRec
 	var cur *vsched.Exec
 	_ = cur
 	mk := func() []func() {
+		f = rc.fresh() // cold objects: first use happens inside the explored schedule
+		init = f.snapshot()
 		var bodies []func()
 		for ti, o := range p.Threads {
 			ti, o := ti, o
@@ -263,6 +319,9 @@ func runProgram(f *fixture, solo []string, init *space.Snap, p program, thorough
 			// the objects may be left modified: rebuild is not possible for package-level state,
 			// so restore by running nothing; subsequent schedules are still compared with init.
 		}
+		if i, path := init.Changed(); i >= 0 {
+			v(violRec{Key: "shared-object-modified-at-end:" + f.names[i], What: "shared object " + f.names[i] + " (" + path + ") differs from its initial snapshot after both operations returned"})
+		}
 		for ti, o := range p.Threads {
 			if outs[ti] != solo[o] {
 				v(violRec{Key: "result-differs-from-solo:" + opShort(o) + ":with:" + opShort(p.Threads[(ti+1)%len(p.Threads)]),
@@ -292,9 +351,6 @@ func runProgram(f *fixture, solo []string, init *space.Snap, p program, thorough
 		res.Replayed++
 	}
 	// arguments and shared objects unmodified at the end
-	if i, path := init.Changed(); i >= 0 {
-		res.Violations = append(res.Violations, violRec{Key: "shared-object-modified-at-end:" + f.names[i], What: "shared object " + f.names[i] + " (" + path + ") differs from its initial snapshot after the exploration of " + p.String(), Program: p.String(), Threads: p.Threads})
-	}
 	return res
 }
 
@@ -322,27 +378,32 @@ func opShort(o int) string {
 	return n
 }
 
-func worker(k, n int, thorough bool, seed int64) {
-	vsched.Filter = filter
-	f := newFixture(seed)
+func soloResults(rc *recipe) []string {
 	solo := make([]string, len(ops))
 	for i, o := range ops {
-		solo[i] = o.Do(f)
+		solo[i] = o.Do(rc.fresh())
 	}
-	// solo results must be stable (run twice)
+	// solo results must be stable (fresh objects again, and a second call on the same objects)
 	for i, o := range ops {
-		if o.Do(f) != solo[i] {
+		f := rc.fresh()
+		if o.Do(f) != solo[i] || o.Do(f) != solo[i] {
 			fmt.Fprintf(os.Stderr, "HARNESS-ERROR: sequential result of %s is not stable\n", o.Name)
 			os.Exit(2)
 		}
 	}
-	init := f.snapshot()
+	return solo
+}
+
+func worker(k, n int, thorough bool, seed int64) {
+	vsched.Filter = filter
+	rc := newRecipe(seed)
+	solo := soloResults(rc)
 	w := bufio.NewWriter(os.Stdout)
 	for _, p := range programs(thorough) {
 		if p.ID%n != k {
 			continue
 		}
-		r := runProgram(f, solo, init, p, thorough)
+		r := runProgram(rc, solo, p, thorough)
 		js, _ := json.Marshal(r)
 		w.Write(js)
 		w.WriteByte('\n')
@@ -350,7 +411,92 @@ func worker(k, n int, thorough bool, seed int64) {
 	}
 }
 
+// freeRun is the AUXILIARY pass (not the deciding step): the same operation bodies on real,
+// free-running goroutines (in a -race build when available). It discharges the assumption the
+// cooperative exploration rests on — that steps inside x/crypto, the standard library and C are
+// atomic and share no hidden mutable state (the cooperative scheduler's hand-offs are
+// happens-before edges and blind the race detector, and C memory is invisible to it anyway).
+// Oracle: every result equals the solo result. A data race makes the -race build exit with
+// code 66 (GORACE), which the parent reports.
+func freeRun(seed int64, thorough bool) {
+	rc := newRecipe(seed)
+	solo := soloResults(rc)
+	type res struct {
+		Pair  string `json:"pair"`
+		Op    string `json:"op"`
+		Got   string `json:"got"`
+		Want  string `json:"want"`
+		Calls int    `json:"calls"`
+	}
+	G, K := 3, 4
+	if thorough {
+		G, K = 4, 12
+	}
+	w := bufio.NewWriter(os.Stdout)
+	var wmu sync.Mutex
+	emit := func(r res) {
+		js, _ := json.Marshal(r)
+		wmu.Lock()
+		w.Write(js)
+		w.WriteByte('\n')
+		w.Flush()
+		wmu.Unlock()
+	}
+	var pairs [][2]int
+	for i := range ops {
+		for j := i; j < len(ops); j++ {
+			pairs = append(pairs, [2]int{i, j})
+		}
+	}
+	sem := make(chan struct{}, 4)
+	var pw sync.WaitGroup
+	for _, pr := range pairs {
+		pr := pr
+		pw.Add(1)
+		sem <- struct{}{}
+		go func() {
+			defer pw.Done()
+			defer func() { <-sem }()
+			f := rc.fresh()
+			start := make(chan struct{})
+			var wg sync.WaitGroup
+			var bad sync.Map
+			for g := 0; g < 2*G; g++ {
+				o := pr[g%2]
+				wg.Add(1)
+				go func() {
+					defer wg.Done()
+					<-start
+					for k := 0; k < K; k++ {
+						if got := ops[o].Do(f); got != solo[o] {
+							bad.LoadOrStore(o, got)
+						}
+					}
+				}()
+			}
+			close(start)
+			wg.Wait()
+			name := ops[pr[0]].Name + " || " + ops[pr[1]].Name
+			n := 0
+			bad.Range(func(k, v any) bool {
+				n++
+				emit(res{Pair: name, Op: ops[k.(int)].Name, Got: clip(v.(string)), Want: clip(solo[k.(int)]), Calls: 2 * G * K})
+				return true
+			})
+			if n == 0 {
+				emit(res{Pair: name, Calls: 2 * G * K})
+			}
+		}()
+	}
+	pw.Wait()
+}
+
 func main() {
+	if len(os.Args) > 1 && os.Args[1] == "--free" {
+		seed, _ := strconv.ParseInt(os.Args[3], 10, 64)
+		freeRun(seed, os.Args[2] == "thorough")
+		return
+	}
 	if len(os.Args) > 1 && os.Args[1] == "--worker" {
 		k, _ := strconv.Atoi(os.Args[2])
 		n, _ := strconv.Atoi(os.Args[3])
@@ -417,14 +563,81 @@ func main() {
 	if int(run.Get("programs")) != len(ps) {
 		run.Fatal("workers reported %d programs, expected %d", run.Get("programs"), len(ps))
 	}
+	auxFreeRun(run)
 	b2, m2 := boundFor(program{Threads: []int{0, 0}}, run.Thorough())
 	b3, m3 := boundFor(program{Threads: []int{0, 0, 0}}, run.Thorough())
 	run.Set("states", run.Get("executions"))
 	run.Set("preemption_bound", map[string]int{"two_threads": b2, "three_threads": b3})
 	run.Set("max_schedules_per_program", map[string]int{"two_threads": m2, "three_threads": m3})
-	run.Set("rule", "program = 2 threads (thorough also 3 with a ComputeHash) running one operation each from the 15-operation alphabet (KMAC ComputeHash x2 on ONE shared hasher, BLS Sign/Verify/VerifyPOP/GeneratePOP/SPOCKVerify/aggregate/many-message/batch verification sharing keys, that hasher and the package-level PoP hasher, ECDSA Sign/Verify on both curves with per-thread hashers): all unordered pairs; for each program ALL schedules within the preemption bound over statement-level scheduling points in hash/kmac.go, bls.go, bls_multisig.go, spock.go, ecdsa.go; monitors: results equal the solo results, and after EVERY scheduling point a deep reflective snapshot of all 20 shared objects/buffers equals the initial one. executions = complete schedules; distinct_nontrivial = programs.")
-	run.Assume("interleavings at statement granularity of the instrumented Go files, sequentially consistent; calls into x/crypto, the standard library and C are atomic steps (data races inside them are invisible to this technique)", "public keys are pre-computed so lazy caching is not part of the scenario", "ECDSA Sign is randomised: its output is verified, not compared")
+	run.Set("rule", "program = 2 threads (thorough also 3 with a ComputeHash) running one operation each from the 17-operation alphabet (KMAC ComputeHash x2 on ONE shared hasher, BLS Sign/Verify/VerifyPOP/GeneratePOP/SPOCKVerify/aggregate/many-message/batch verification sharing keys, that hasher and the package-level PoP hasher, ECDSA Sign/Verify on both curves with per-thread hashers): all unordered pairs; every execution starts from FRESH shared objects (new hasher, public keys decoded from bytes and never used before), so first use / lazy initialisation is inside the explored schedules; for each program ALL schedules within the preemption bound over statement-level scheduling points in hash/kmac.go, bls.go, bls_multisig.go, spock.go, ecdsa.go; monitors: results equal the solo results, and after EVERY scheduling point a deep reflective snapshot of all 20 shared objects/buffers equals the initial one. executions = complete schedules; distinct_nontrivial = programs.")
+	run.Assume("private keys have their public key computed before the threads start (lazy public-key caching of private keys is not part of the listed operations)", "interleavings at statement granularity of the instrumented Go files, sequentially consistent; calls into x/crypto, the standard library and C are atomic steps (data races inside them are invisible to this technique)", "ECDSA Sign is randomised: its output is verified, not compared")
 	run.Finish()
+}
+
+// auxFreeRun runs the free-running auxiliary pass in the -race binary (path in C19_RACE_BIN; falls
+// back to this binary without race detection) and reports result mismatches and data races.
+func auxFreeRun(run *ev.Run) {
+	bin, raceBuild := os.Getenv("C19_RACE_BIN"), true
+	if bin == "" {
+		bin, raceBuild = os.Args[0], false
+	}
+	cmd := exec.Command(bin, "--free", run.Tier, strconv.FormatInt(run.Seed, 10))
+	cmd.Env = append(os.Environ(), "GORACE=halt_on_error=1 exitcode=66")
+	var stderr strings.Builder
+	cmd.Stderr = &stderr
+	out, err := cmd.Output()
+	type res struct {
+		Pair  string `json:"pair"`
+		Op    string `json:"op"`
+		Got   string `json:"got"`
+		Want  string `json:"want"`
+		Calls int    `json:"calls"`
+	}
+	pairs, calls := 0, 0
+	for _, line := range strings.Split(string(out), "\n") {
+		var r res
+		if json.Unmarshal([]byte(line), &r) != nil || r.Pair == "" {
+			continue
+		}
+		if r.Op == "" {
+			pairs++
+			calls += r.Calls
+			continue
+		}
+		pairs++
+		calls += r.Calls
+		run.Violation("aux-free-run:result-differs-from-solo:"+opShortName(r.Op), "free-running goroutines: "+r.Pair+": "+r.Op+" returned a different result than when run alone", r)
+	}
+	if err != nil {
+		if ee, ok := err.(*exec.ExitError); ok && ee.ExitCode() == 66 {
+			txt := stderr.String()
+			fn := "unknown"
+			for _, l := range strings.Split(txt, "\n") {
+				l = strings.TrimSpace(l)
+				if strings.HasPrefix(l, "github.com/onflow/crypto") {
+					fn = l
+					if i := strings.Index(fn, "("); i > 0 {
+						fn = fn[:i]
+					}
+					break
+				}
+			}
+			if len(txt) > 3000 {
+				txt = txt[:3000]
+			}
+			run.Violation("aux-data-race:"+fn, "the Go race detector reports a data race between free-running calls of the listed operations on shared objects", map[string]any{"race_report": txt})
+		} else {
+			run.Fatal("auxiliary free-running pass failed: %v\n%s", err, stderr.String())
+		}
+	}
+	run.Set("aux_free_running_pass", map[string]any{"race_detector_build": raceBuild, "operation_pairs": pairs, "calls": calls, "note": "auxiliary assumption discharge (sampling), not the deciding step"})
+}
+
+func opShortName(n string) string {
+	if i := strings.Index(n, "("); i >= 0 {
+		n = n[:i]
+	}
+	return n
 }
 
 func replay(run *ev.Run) {
@@ -439,11 +652,9 @@ func replay(run *ev.Run) {
 		run.Fatal("%v", err)
 	}
 	vsched.Filter = filter
-	f := newFixture(run.Seed)
-	solo := make([]string, len(ops))
-	for i, o := range ops {
-		solo[i] = o.Do(f)
-	}
+	rc := newRecipe(run.Seed)
+	solo := soloResults(rc)
+	f := rc.fresh()
 	init := f.snapshot()
 	p := program{0, file.Replay.Threads}
 	outs := make([]string, len(p.Threads))
